@@ -144,6 +144,7 @@ def gen_ops(rng, cfg, nops):
         'parfile': rng.choice([0, 0.4, 1.0]),
         'update_repeat': rng.choice([0, 0.5, 1.5]),
         'modify_bounds': rng.choice([0, 0.4, 1.0]),
+        'inplace_bounds': rng.choice([0, 0.4, 1.0]),
         'module_compile': rng.choice([0, 0.3, 1.0]),
         'rebuild': rng.choice([0, 0.5, 1.0]) if cfg['kind'] == 'real' else 0,
         'rebuild_without': rng.choice([0, 0.4, 0.8])
@@ -196,11 +197,14 @@ def gen_ops(rng, cfg, nops):
             ops.append([k])
         elif k in ('module_compile', 'rebuild', 'rebuild_without'):
             ops.append([k])
-        elif k == 'modify_bounds':
+        elif k in ('modify_bounds', 'inplace_bounds'):
             # the component-level API (Fittable.modify_bounds) instead of the
-            # optimizer's
+            # optimizer's; or: the caller changes, in place, the very list
+            # it handed to set_boundary earlier (TauREx keeps that object)
             n = rng.choice(names)
-            ops.append([k, n, _sbounds(rng) if n in signed else _bounds(rng)])
+            ops.append([k, n, _sbounds(rng) if n in signed else _bounds(rng)]
+                       + ([rng.random() < 0.5] if k == 'inplace_bounds'
+                          else []))
         elif k == 'via_other':
             # a second optimizer attached to the same model and observation
             # changes a setting (the tables are theirs, not the optimizer's)
@@ -416,6 +420,7 @@ def execute(case, keep_text=False):
     stale = [False]     # model rebuilt since the last compile: what the
     #                     optimizer compiled refers to tables that are gone
     dirty_since_compile = False
+    held_bounds = {}
     fault_kinds = set()
     direct_since_compile = False
 
@@ -578,14 +583,16 @@ def execute(case, keep_text=False):
             gone = None
             if k in ('enable_fit', 'disable_fit', 'set_mode', 'set_boundary',
                      'set_factor_boundary', 'set_prior', 'direct_write',
-                     'modify_bounds') and op[1] not in ref.params:
+                     'modify_bounds', 'inplace_bounds') \
+                    and op[1] not in ref.params:
                 gone = op[1]
             elif k == 'via_other' and op[2] not in ref.params:
                 gone = op[2]
             if gone is not None:
                 # a parameter the model no longer has (its component was
                 # removed before a rebuild): naming it is an error now
-                if k in ('direct_write', 'via_other', 'modify_bounds'):
+                if k in ('direct_write', 'via_other', 'modify_bounds',
+                         'inplace_bounds'):
                     continue
                 raised = False
                 try:
@@ -619,6 +626,19 @@ def execute(case, keep_text=False):
                 if all(float(x).is_integer() for x in b):
                     b = [int(x) for x in b]       # integers are numbers too
                 real_call(step, k, opt.set_boundary, op[1], b)
+                held_bounds[op[1]] = b
+                ref.params[op[1]]['bounds'] = list(op[2])
+                dirty_since_compile = True
+            elif k == 'inplace_bounds':
+                b = held_bounds.get(op[1])
+                tab = (model if op[1] in model.fittingParameters
+                       else obs).fittingParameters
+                if b is None or tab[op[1]][6] is not b:
+                    continue        # TauREx holds no list of the caller's
+                b[:] = list(op[2])
+                out.bump('probes', 'bounds_list_changed_in_place')
+                if len(op) > 3 and op[3]:   # and hands it over again
+                    real_call(step, k, opt.set_boundary, op[1], b)
                 ref.params[op[1]]['bounds'] = list(op[2])
                 dirty_since_compile = True
             elif k == 'set_factor_boundary':
